@@ -81,7 +81,8 @@ ExpectedReloc == [i \in 1..20 |-> IF i <= 8 THEN <<114, 111, 47 + i>>
 RelocOk(r) == r.reloc = ExpectedReloc
 
 \* the harness did what it was asked to (not part of the verdict: a failure here is a tool error)
-HarnessOk(r) == /\ r.kargv = (IF r.argv = <<>> THEN << <<>> >> ELSE r.argv)
+\* (an empty argument vector is replaced by [""] by kernels >= 5.18 and passed as it is by older ones)
+HarnessOk(r) == /\ r.kargv = r.argv \/ (r.argv = <<>> /\ r.kargv = << <<>> >>)
                 /\ r.kenv = r.env
 
 Clauses(r) ==
